@@ -259,7 +259,19 @@ def _c16_monitor(sc, c, outcome):
     return ms.mon_c16(sc, c, outcome)
 
 
-PROPERTIES["C16"] = {"run": _sched(_c16_monitor, async_req=True), "assumptions": SCHED_ASSUME + [
+def _c16_extra(o, driver, rng):
+    """The multi-agent pattern: one set_data call addressing several controllers from several agent entities."""
+    import sched_corr as scorr
+    n_sc, n_sched = (80, 3) if o.tier == "quick" else (1500, 5)
+    scs = [scorr.gen_mas_scenario(rng) for _ in range(n_sc)]
+    res = scorr.run_sched_suite(driver, rng, len(scs), n_sched, name="mas", monitor=_c16_monitor, scenarios=scs)
+    o.suites.append(res)
+    o.violations.extend(res["violations"])
+    o.monitor_stats["mas_traces_monitored"] = res["traces"]
+    o.monitor_stats["impl_monitor_violations"] += len(res["violations"])
+
+
+PROPERTIES["C16"] = {"run": _sched(_c16_monitor, async_req=True, extra=_c16_extra), "assumptions": SCHED_ASSUME + [
     "the data path of an asynchronous get_data (cache lookup / direct query of the source) is not modelled, only its admission check",
     "no ordinary connection feeds the same (source entity, destination entity, attribute) key as a set_data call"]}
 
